@@ -19,7 +19,7 @@ func TestVerif(t *testing.T) {
 			"{503, success, 401 Bearer, 401 Basic, 408, 429 Retry-After:1, 429 Retry-After:100, 429 Retry-After:garbage, timeout error, other transport error; thorough adds 429, 500, 404}; " +
 			"x body kind {none (GET), PUT *bytes.Reader, PUT one-shot reader, PUT whose GetBody fails, one-shot reader through Repository.Manifests().Push, Repository.Blobs().Push with *bytes.Reader and with a one-shot reader (POST then PUT)} " +
 			"x body size {0,1,3} x the fake reading the whole body or only j bytes (j < size) before every non-success answer x MaxRetry {0,1,2} x token cache {none, pre-filled with two bearer tokens} " +
-			"x policy {default parameters 250ms/2/0.1 in [200ms,3s]; thorough adds 1ms/10/0.5 in [5ms,40ms]}. " +
+			"x policy {default parameters 250ms/2/0.1 in [200ms,3s]; a zero-pause policy 0/2/0.1 in [0,0] (one configuration per body kind); thorough adds 1ms/10/0.5 in [5ms,40ms]}. " +
 			"Each execution runs the call undisturbed and then once more per retry pause with the context cancelled at half of that pause (WithCancel+AfterFunc, and WithTimeout), replaying the same answers. " +
 			"Checked per call: body bytes received on every attempt = original (prefix when the fake stopped reading), attempts per send <= MaxRetry+1, every gap between attempts of a send within [MinWait,MaxWait], = the pause the policy granted (recorded by a pass-through policy wrapper) and = clamp(Retry-After) after 429 Retry-After:N, " +
 			"zero virtual time anywhere else, no attempt after a non-retryable answer, returned response = last answer, cancellation => ctx error at the cancel instant and no later attempt; any panic is a violation. " +
@@ -53,6 +53,7 @@ func combos(th bool) []combo {
 		}
 	}
 	out = append(out, combo{kGetBodyErr, 3, -1}, combo{kGetBodyErr, 3, 1})
+	out = append(out, combo{kOneShotChunked, 3, -1}, combo{kOneShotChunked, 1, 0}, combo{kGetBodyChunked, 3, -1}, combo{kGetBodyChunked, 3, 1})
 	out = append(out, combo{kManifestPush, 0, -1}, combo{kManifestPush, 1, -1}, combo{kManifestPush, 3, -1}, combo{kManifestPush, 3, 1})
 	out = append(out, combo{kBlobReader, 3, -1}, combo{kBlobReader, 3, 1}, combo{kBlobOneShot, 3, -1}, combo{kBlobOneShot, 3, 1})
 	if th {
@@ -72,7 +73,12 @@ func jobs(tier string) []driver.Job {
 		alphabet = fullAlphabet
 		npol = 2
 	}
-	for pi := 0; pi < npol; pi++ {
+	polIdx := []int{0, 2} // the default parameters and the zero-pause policy
+	if th {
+		polIdx = []int{0, 1, 2}
+	}
+	_ = npol
+	for _, pi := range polIdx {
 		for _, mr := range []int{2, 1, 0} {
 			for _, warm := range []bool{false, true} {
 				for _, cb := range combos(th) {
@@ -81,7 +87,7 @@ func jobs(tier string) []driver.Job {
 					}
 					cf := cfg{kind: cb.kind, size: cb.size, partial: cb.partial, mr: mr, warm: warm, pol: pi}
 					nsh := 1
-					replay := cb.kind != kOneShot && cb.kind != kGetBodyErr
+					replay := cb.kind != kOneShot && cb.kind != kGetBodyErr && cb.kind != kOneShotChunked
 					if replay && mr == 2 {
 						nsh = 8
 						if th {
@@ -164,6 +170,9 @@ func scenario(c *driver.Ctx, cf cfg, alphabet []beh) (func(), func(*vs.Result) *
 		c.Outcome(driver.Hash("call", fmt.Sprint(base.status, base.err != nil, nA, base.end)))
 		// cancellation at half of every pause, replaying the recorded answers
 		for _, p := range pauses {
+			if p.dur == 0 {
+				continue // a pause of zero length has no inside to cancel in (timer and cancellation would tie)
+			}
 			at := p.start + p.dur/2
 			for _, deadline := range []bool{false, true} {
 				out := runCall(cf, f, at, deadline)
